@@ -107,3 +107,96 @@ Proof. unfold no_recycle. vm_compute. intuition discriminate. Qed.
 Example old_rule_refuted :
   In KRecycle (snd (krun 250 (old_recovered (mkK 3 0 3 false)) (slow_peer_schedule 400))).
 Proof. vm_compute. intuition. Qed.
+
+(* ---- the property at full strength: a peer that answers every heartbeat within [lat], heartbeats answered in order,
+   ticks at most [interval] apart, lat + interval <= timeout: never declared dead - from Dial on and across any
+   number of recoveries.  [pending] is the ghost queue of the send times of the heartbeats not answered yet. ---- *)
+Fixpoint chain (interval lt : N) (pending : list N) : Prop :=
+  match pending with
+  | [] => True
+  | [t] => t = lt
+  | t :: ((t' :: _) as r) => t <= t' /\ t' <= t + interval /\ chain interval lt r
+  end.
+
+Fixpoint answering (interval lat lt : N) (pending : list N) (acts : list kact) : Prop :=
+  match acts with
+  | [] => True
+  | KTick now ok :: rest =>
+      ok = true /\ lt <= now /\ now <= lt + interval /\
+      match pending with [] => True | t0 :: _ => now <= t0 + lat end /\      (* the oldest unanswered heartbeat is not overdue *)
+      answering interval lat now (pending ++ [now]) rest
+  | KPong p :: rest =>
+      match pending with
+      | [] => False                                                            (* only answers to heartbeats *)
+      | t0 :: q => t0 <= p /\ answering interval lat lt q rest
+      end
+  | KRecovered r :: rest => lt <= r /\ answering interval lat r [] rest
+  | KPeerPing _ _ :: rest => answering interval lat lt pending rest
+  | KReconnecting _ :: _ => False
+  end.
+
+Definition kinv (interval lt : N) (pending : list N) (s : kstate) : Prop :=
+  k_reconnecting s = false /\ chain interval lt pending /\
+  match pending with [] => lt <= k_last_pong s | t0 :: _ => t0 <= k_last_pong s + interval end.
+
+Lemma chain_app interval lt now pending : chain interval lt pending -> lt <= now -> now <= lt + interval ->
+  chain interval now (pending ++ [now]).
+Proof.
+  revert lt. induction pending as [|t q IH]; intros lt C A B; [reflexivity|].
+  destruct q as [|t' q'].
+  - cbn in C. subst t. cbn. repeat split; lia.
+  - cbn [chain] in C. destruct C as (C1 & C2 & C3). change ((t :: t' :: q') ++ [now]) with (t :: (t' :: q') ++ [now]).
+    specialize (IH lt C3 A B). cbn [app] in IH |- *. cbn [chain]. repeat split; auto.
+Qed.
+
+Theorem answering_peer_never_declared_dead timeout interval lat : lat + interval <= timeout ->
+  forall acts s lt pending,
+  answering interval lat lt pending acts -> kinv interval lt pending s ->
+  N.of_nat (length acts) + k_counter s + 1 < 4294967296 ->
+  no_recycle (snd (krun timeout s acts)).
+Proof.
+  intros LT. unfold no_recycle. induction acts as [|a rest IH]; intros s lt pending H (R & C & P) B; [cbn; auto|].
+  destruct a as [now ok|p|r|b|id body]; cbn [answering] in H.
+  - (* tick *)
+    destruct H as (-> & A1 & A2 & A3 & H).
+    assert (OKT : k_last_ka s = 0 \/ now - k_last_pong s <= timeout).
+    { right. destruct pending as [|t0 q]; lia. }
+    cbn [krun]. rewrite ping_schedule; [|exact R|exact OKT|cbn [length] in B; lia].
+    set (s2 := mkK (k_counter s + 1) (k_last_pong s) (k_counter s + 1) false).
+    destruct (krun timeout s2 rest) as [s3 e3] eqn:K. cbn [snd app]. intros [E|I]; [discriminate|].
+    apply (IH s2 now (pending ++ [now]) H); [|unfold s2; cbn [k_counter]; cbn [length] in B; lia|rewrite K; exact I].
+    split; [reflexivity|]. split; [eapply chain_app; eauto|].
+    unfold s2; cbn [k_last_pong]. destruct pending as [|t0 q]; cbn [app]; lia.
+  - (* pong *)
+    destruct pending as [|t0 q]; [contradiction|]. destruct H as (A & H).
+    cbn [krun kstep]. set (s2 := mkK (k_last_ka s) p (k_counter s) (k_reconnecting s)).
+    destruct (krun timeout s2 rest) as [s3 e3] eqn:K. cbn [snd app]. intros I.
+    apply (IH s2 lt q H); [|unfold s2; cbn [k_counter]; cbn [length] in B; lia|rewrite K; exact I].
+    split; [exact R|]. destruct q as [|t1 q'].
+    + cbn in C. subst t0. split; [exact Logic.I|]. unfold s2; cbn [k_last_pong]. lia.
+    + cbn [chain] in C. destruct C as (C1 & C2 & C3). split; [exact C3|]. unfold s2; cbn [k_last_pong]. lia.
+  - (* recovered *)
+    destruct H as (A & H). cbn [krun kstep]. destruct (krun timeout (mkK 0 r 0 false) rest) as [s3 e3] eqn:K. cbn [snd app]. intros I.
+    apply (IH (mkK 0 r 0 false) r [] H); [|cbn [k_counter]; cbn [length] in B; lia|rewrite K; exact I].
+    split; [reflexivity|]. split; [exact Logic.I|]. cbn [k_last_pong]. lia.
+  - contradiction.
+  - (* peer ping *)
+    cbn [krun kstep]. destruct (krun timeout s rest) as [s3 e3] eqn:K. cbn [snd app]. intros [E|I]; [discriminate|].
+    apply (IH s lt pending H); [repeat split; auto|cbn [length] in B; lia|rewrite K; exact I].
+Qed.
+
+(* from Dial: the keepalive loop starts with no heartbeat awaited and the clock at the start time *)
+Corollary answering_peer_after_dial timeout interval lat start acts : lat + interval <= timeout ->
+  answering interval lat start [] acts -> N.of_nat (length acts) + 1 < 4294967296 ->
+  no_recycle (snd (krun timeout (k0 start) acts)).
+Proof.
+  intros LT H B. eapply answering_peer_never_declared_dead; eauto.
+  - split; [reflexivity|]. split; [exact Logic.I|]. cbn. lia.
+  - cbn [k0 k_counter]. lia.
+Qed.
+
+(* non-vacuity: the slow peer (150 ms) with interval 100, timeout 250, before and after a recovery *)
+Example slow_peer_is_answering : answering 100 150 0 [] (slow_peer_schedule 0).
+Proof. cbn. repeat split; lia. Qed.
+Example slow_peer_is_answering_after_recovery : answering 100 150 400 [] (KRecovered 400 :: slow_peer_schedule 400).
+Proof. cbn. repeat split; lia. Qed.
